@@ -40,11 +40,18 @@ TAGS = {
     17: 'a symbolic leaf does not survive serialize/deserialize', 18: 'json text round trip is not idempotent',
     19: 'generic model file cannot be read back to an equal model',
     20: 'to_dict() is not accepted by json.dumps', 21: 'different dataset but same key',
+    23: 'equal datasets (DataFrame.equals) but different DatasetHash', 24: 'different datasets but the same DatasetHash',
+    25: 'DatasetHash differs between interpreter processes',
+    40: 'Results.to_json differs from model', 41: 'read_results differs from model',
+    42: 'read_results(r.to_json()) does not give the results object back',
+    30: 'DatasetHash equality differs from equality of the modelled hash input', 31: 'DataFrame.equals differs from model',
 }
-CORR = (1, 2, 3, 4, 5, 6, 7, 8, 9, 10)
-ORACLE = (11, 12, 13, 14, 15, 16, 17, 18, 19, 20, 21)
-F_DERIV, F_INTKEY, F_SREPR, F_EQDOSING = (
-    'C12-DERIVATIVES-TEXT', 'C12-JSON-INTKEY', 'C12-SREPR-DISTRIBUTES', 'C12-EQ-DOSING-ORDER')
+CORR = (1, 2, 3, 4, 5, 6, 7, 8, 9, 10, 30, 31, 40, 41)
+ORACLE = (11, 12, 13, 14, 15, 16, 17, 18, 19, 20, 21, 23, 24, 25, 42)
+F_DERIV, F_INTKEY, F_SREPR, F_EQDOSING, F_TOOLORDER, F_INDEXREPR = (
+    'C12-DERIVATIVES-TEXT', 'C12-JSON-INTKEY', 'C12-SREPR-DISTRIBUTES', 'C12-EQ-DOSING-ORDER',
+    'C12-HASH-TOOLOPTIONS-ORDER', 'C12-DATASET-INDEX-REPR')
+F_RESPATH = 'C12-RESULTS-PATH-READ'
 # fixed in /repo (cee2988, ddb8814, eb87ce1, 30e26dc, e582408): C12-JSON-TUPLE, C12-HASH-ORDER, C12-HASH-DEPVAR-ORDER,
 # C12-GENERIC-READ, C12-CATEGORIES-MAPPING -- their witnesses stay in regress/C12; a recurrence is a VIOLATION
 
@@ -605,6 +612,10 @@ def gen_model_pair(rng):
                                 [['x_reverse_nodes', []]],
                                 [['set_zero_order_absorption', []], ['set_bolus_absorption', []]]])
         why = 'there-and-back'
+    elif r < 0.49:
+        a['ops'].append(['x_estimation_options', [{'NITER': 5, 'ISAMPLE': 20}]])
+        b['ops'].append(['x_estimation_options', [{'ISAMPLE': 20, 'NITER': 5}]])
+        why = 'tool-order'
     elif r < 0.53:
         a['ops'].append(['x_depvars', [['Y', 'Z']]])
         b['ops'].append(['x_depvars', [['Z', 'Y']]])
@@ -627,6 +638,244 @@ def gen_model_pair(rng):
         except Exception:
             return None
     return {'a': a, 'b': b, 'why': why}
+
+
+# ------------------------------------------------------------------ results objects
+def gen_results_value(rng, supported_only=False):
+    kinds = ['plain', 'plain', 'frame', 'series', 'log', 'plainnest']
+    if not supported_only:
+        kinds += ['tuple', 'intkey', 'model', 'path', 'set', 'ndarray', 'npint']
+    k = rng.choice(kinds)
+    if k == 'plain':
+        return {'kind': 'plain', 'value': rng.choice([None, True, 3, 1.5, -0.25, 'text', float('inf')])}
+    if k == 'plainnest':
+        return {'kind': 'plain', 'value': rng.choice([[1, 2.5, 'a'], {'k': [1, {'z': None}]}, [], {'a': 1, 'b': [True]}])}
+    if k == 'frame':
+        n = rng.choice([1, 2, 3])
+        cols = rng.sample(['est', 'se', 'label', 'n'], rng.choice([1, 2, 3]))
+        data = [[(rng.choice([0.5, 1.25, -3.0, 100.0]) if c in ('est', 'se') else ('row%d' % i if c == 'label' else i + 1))
+                 for i in range(n)] for c in cols]
+        spec = {'kind': 'frame', 'columns': cols, 'data': data}
+        if rng.random() < 0.5:
+            spec['index'] = ['P%d' % i for i in range(n)]
+        return spec
+    if k == 'series':
+        n = rng.choice([1, 2, 4])
+        return {'kind': 'series', 'data': [rng.choice([0.5, 2.0, -1.75]) for _ in range(n)],
+                'index': ['THETA_%d' % i for i in range(n)], 'name': rng.choice(['estimates', 'values'])}
+    if k == 'log':
+        return {'kind': 'log', 'messages': rng.choice([[], ['first'], ['one', 'two']])}
+    if k == 'tuple':
+        return {'kind': 'tuple', 'value': [1, 'b']}
+    if k == 'intkey':
+        return {'kind': 'intkey', 'value': {'1': 'x'}}
+    if k == 'path':
+        return {'kind': 'path', 'value': '/tmp/results/run1'}
+    if k in ('set', 'ndarray'):
+        return {'kind': k, 'value': [1, 2]}
+    if k == 'npint':
+        return {'kind': 'npint', 'value': 3}
+    return {'kind': k}
+
+
+def gen_results_spec(rng):
+    if rng.random() < 0.3:
+        fields = {}
+        if rng.random() < 0.8:
+            fields['ofv'] = {'kind': 'plain', 'value': rng.choice([1.5, -220.25, 0.0])}
+        if rng.random() < 0.8:
+            fields['parameter_estimates'] = gen_results_value(rng, True) if rng.random() < 0.3 else \
+                {'kind': 'series', 'data': [0.5, 2.0], 'index': ['POP_CL', 'POP_VC'], 'name': 'estimates'}
+        if rng.random() < 0.5:
+            fields['minimization_successful'] = {'kind': 'plain', 'value': rng.choice([True, False, None])}
+        if rng.random() < 0.4:
+            fields['log'] = {'kind': 'log', 'messages': ['note']}
+        return {'results': {'class': 'modelfit', 'fields': fields}}
+    names = rng.sample(['a', 'b', 'c', 'd'], rng.choice([1, 2, 3, 4]))
+    sup = rng.random() < 0.7
+    return {'results': {'class': 'probe', 'fields': {n: gen_results_value(rng, sup) for n in sorted(names)}}}
+
+
+def values_equal(a, b):
+    import pandas as pd
+    from pharmpy.workflows import Log
+    if isinstance(a, (pd.DataFrame, pd.Series)):
+        return type(a) is type(b) and bool(a.equals(b))
+    if isinstance(a, Log):
+        return isinstance(b, Log) and a.to_dict() == b.to_dict()
+    if type(a) is not type(b):
+        return False
+    if isinstance(a, float) and a != a:
+        return b != b
+    try:
+        return bool(a == b)
+    except Exception:
+        return False
+
+
+def observe_results(spec):
+    from harness.props import c12_results
+    from pharmpy.workflows.results import read_results
+    r = c12_results.build_results(spec['results'])
+    try:
+        text = r.to_json()
+    except TypeError:
+        text = None
+    back = None
+    if text is not None:
+        try:
+            back = read_results(text)
+        except Exception:
+            back = None
+    equal = (back is not None and type(back) is type(r) and list(vars(back)) == list(vars(r))
+             and all(values_equal(v, getattr(back, k)) for k, v in vars(r).items()))
+    info = {}
+    jterm = 'None' if text is None else f'(Some {ex.pyv(json.loads(text))})'
+    bterm = 'None'
+    if back is not None:
+        try:
+            bterm = f'(Some {ex.results(back)})'
+        except ex.Unconvertible as e:
+            info['unconvertible_results'] = [str(e)]
+    term = f'(mkR {ex.results(r)}\n  {jterm}\n  {bterm}\n  {ex.cbool(equal)})'
+    info.update({'class': spec['results']['class'], 'equal': equal, 'encoded': text is not None, 'read': back is not None})
+    return term, info
+
+
+def run_results(ctx, specs, label):
+    terms, kept, infos = [], [], []
+    for spec in specs:
+        try:
+            term, info = observe_results(spec)
+        except ex.Unconvertible:
+            continue
+        terms.append(term)
+        kept.append(spec)
+        infos.append(info)
+    verdicts = sized_run(ctx, label, 'rcase', terms, 'rverdict') if terms else []
+    return kept, verdicts, infos
+
+
+# ------------------------------------------------------------------ datasets
+def fhex(x):
+    return float(x).hex()
+
+
+def gen_frame(rng, big=False):
+    ncol = rng.choice([1, 2, 2, 3])
+    cols = rng.sample(['ID', 'TIME', 'DV', 'AMT', 'WGT', 'SEX'], ncol)
+    dts = [rng.choice(['float64', 'float64', 'int64', 'object']) for _ in cols]
+    n = rng.choice([95, 99, 100, 101, 102, 130]) if big else rng.choice([1, 2, 3, 5])
+    def val(dt, i):
+        if dt == 'float64':
+            return fhex(rng.choice([0.0, 1.5, -2.25, 1e-3, float(i), float('nan')]) if rng.random() < 0.5 else float(i))
+        if dt == 'int64':
+            return rng.choice([0, 1, i, -7])
+        return rng.choice(['a', 'b', 'xyz', str(i)])
+    rows = [[val(dt, i) for dt in dts] for i in range(n)]
+    index = {'range': [0, n, 1]} if rng.random() < 0.5 else {'labels': [rng.choice([1, 3]) * i + 5 for i in range(n)]}
+    return {'columns': cols, 'dtypes': dts, 'rows': rows, 'index': index, 'how': 'dict'}
+
+
+def gen_frame_pair(rng):
+    a = gen_frame(rng, big=rng.random() < 0.35)
+    b = json.loads(json.dumps(a))
+    n = len(a['rows'])
+    kinds = ['identical', 'records', 'attrs', 'columns-name', 'cell', 'rename', 'swap', 'dtype', 'index-kind',
+             'index-label-front', 'index-label-middle', 'index-label-back', 'negzero', 'index-name']
+    why = rng.choice(kinds)
+    if why == 'records':
+        b['how'] = 'records'
+    elif why == 'attrs':
+        b['attrs'] = True
+    elif why == 'columns-name':
+        b['columns_name'] = 'cols'
+    elif why == 'cell':
+        i, j = rng.randrange(n), rng.randrange(len(a['columns']))
+        dt = a['dtypes'][j]
+        b['rows'][i][j] = fhex(123.25) if dt == 'float64' else (99 if dt == 'int64' else 'changed')
+    elif why == 'rename':
+        b['columns'][0] = b['columns'][0] + 'X'
+    elif why == 'swap':
+        if len(a['columns']) < 2:
+            return None
+        b['columns'][0], b['columns'][1] = b['columns'][1], b['columns'][0]
+        b['dtypes'][0], b['dtypes'][1] = b['dtypes'][1], b['dtypes'][0]
+        for r in b['rows']:
+            r[0], r[1] = r[1], r[0]
+    elif why == 'dtype':
+        js = [j for j, dt in enumerate(a['dtypes']) if dt == 'int64']
+        if not js:
+            return None
+        j = js[0]
+        b['dtypes'][j] = 'float64'
+        for r in b['rows']:
+            r[j] = fhex(r[j])
+    elif why == 'index-kind':
+        a['index'] = {'range': [0, n, 1]}
+        b['index'] = {'labels': list(range(n))}
+    elif why.startswith('index-label'):
+        a['index'] = {'labels': list(range(n))}
+        k = {'front': min(3, n - 1), 'middle': n // 2, 'back': max(0, n - 2)}[why.split('-')[-1]]
+        b['index'] = {'labels': [100000 + v if i == k else v for i, v in enumerate(range(n))]}
+    elif why == 'negzero':
+        js = [j for j, dt in enumerate(a['dtypes']) if dt == 'float64']
+        if not js:
+            return None
+        a['rows'][0][js[0]] = fhex(0.0)
+        b['rows'][0][js[0]] = fhex(-0.0)
+    elif why == 'index-name':
+        a['index'] = {'labels': list(range(n))}
+        b['index'] = {'labels': list(range(n))}
+        b['index_name'] = 'rowid'
+    return {'fa': a, 'fb': b, 'why': why}
+
+
+def frame_hashes(ctx, frames, seeds):
+    env_base = dict(os.environ)
+    env_base['PYTHONPATH'] = f"{os.environ.get('VERIF_REPO', str(REPO))}/src:{VERIF}"
+
+    def one(seed):
+        env = dict(env_base)
+        env['PYTHONHASHSEED'] = str(seed)
+        p = subprocess.run([sys.executable, '-m', 'harness.props.c12_worker'], input=json.dumps({'frames': frames}),
+                           text=True, stdout=subprocess.PIPE, stderr=subprocess.PIPE, env=env, cwd=str(VERIF), timeout=3000)
+        if p.returncode != 0:
+            raise RuntimeError(f'worker (PYTHONHASHSEED={seed}) failed: {p.stderr[-1500:]}')
+        line = [l for l in p.stdout.splitlines() if l.startswith('{"hashseed"')][-1]
+        return seed, json.loads(line)['results']
+    out = {}
+    with ThreadPoolExecutor(max_workers=max(1, min(len(seeds), 6))) as ex_:
+        for seed, res in ex_.map(one, seeds):
+            out[seed] = res
+    return out
+
+
+def run_frame_pairs(ctx, pairs, label, seeds):
+    from pharmpy.workflows.hashing import DatasetHash
+    flat = []
+    for p in pairs:
+        flat += [p['fa'], p['fb']]
+    other = frame_hashes(ctx, flat, seeds) if seeds and flat else {}
+    terms, infos, kept = [], [], []
+    for i, p in enumerate(pairs):
+        a, b = gen.build_frame(p['fa']), gen.build_frame(p['fb'])
+        ha, hb = str(DatasetHash(a)), str(DatasetHash(b))
+        has, hbs = {ha}, {hb}
+        for sd in seeds:
+            ra, rb = other[sd][2 * i], other[sd][2 * i + 1]
+            has.add(ra.get('hash', 'error'))
+            hbs.add(rb.get('hash', 'error'))
+        try:
+            eq = bool(a.equals(b))
+            term = f"(mkD {ex.frame(a)}\n  {ex.frame(b)}\n  {ex.cbool(eq)} {ex.cbool(ha == hb)} {ex.cbool(len(has) == 1 and len(hbs) == 1)})"
+        except ex.Unconvertible:
+            continue
+        terms.append(term)
+        kept.append(p)
+        infos.append({'why': p.get('why'), 'equals': eq, 'hash_eq': ha == hb, 'rows': len(p['fa']['rows'])})
+    verdicts = sized_run(ctx, label, 'dcase', terms, 'dverdict') if terms else []
+    return kept, verdicts, infos
 
 
 # ------------------------------------------------------------------ keys in other processes
@@ -696,7 +945,7 @@ def classify(ctx, spec, tags, pair=False):
         corr = [t for t in corr if t not in (5, 6)]
     for t in oracle:
         fine = False
-        if engine_failed and t in (11, 12, 16, 17):
+        if engine_failed and t in (11, 12, 16, 17, 19):
             fine = known(F_SREPR)
         elif 205 in tags and t in (11, 12, 16):
             # NaN bound: outside the property's domain (x != x already); counted, not judged
@@ -709,6 +958,29 @@ def classify(ctx, spec, tags, pair=False):
         elif t in (16, 19):
             # the generic model code / file is the JSON way back of the whole model
             fine = 12 in tags and excused_json()
+        elif t == 13:
+            # equal models whose tool options were entered in another order
+            fine = 210 in tags and not (tags & {5, 8, 9, 10}) and known(F_TOOLORDER)
+        elif t == 42:
+            if tags & {40, 41}:
+                fine = False
+            elif 221 in tags:
+                fine = known(F_RESPATH)                 # a Path attribute: read_results raises
+            elif 220 in tags:
+                # an attribute kind the format does not carry (Model -> None, tuple -> list, int key -> text, or
+                # a value json refuses): Refuted.results_unsupported_refuted; counted, not judged
+                ctx.coverage['results_unsupported_kinds'] = ctx.coverage.get('results_unsupported_kinds', 0) + 1
+                fine = True
+        elif t == 23:
+            if 213 in tags and 211 not in tags and 214 not in tags and not (tags & {30, 31}):
+                # -0.0 vs 0.0: equals() says equal, the bit patterns (which is what is hashed) differ: counted, not judged
+                ctx.coverage['negative_zero_cases'] = ctx.coverage.get('negative_zero_cases', 0) + 1
+                fine = True
+            else:
+                # RangeIndex vs plain Index, or another index name: equals() ignores both, repr(df.index) shows them
+                fine = (211 in tags or 214 in tags) and not (tags & {30, 31}) and known(F_INDEXREPR)
+        elif t == 24:
+            fine = 212 in tags and not (tags & {30, 31}) and known(F_INDEXREPR)
         elif t == 14:
             # `==` says different although t, compartments and flows agree (its dosing_compartments depend on the
             # graph order), the order-blind key says same
@@ -833,7 +1105,11 @@ def finding_probes(ctx):
         if f.get('status') != 'open':
             continue
         w = f['witness']
-        if 'a' in w:
+        if 'results' in w:
+            _, verdicts, _ = run_results(ctx, [w], 'finding-' + f['id'])
+        elif 'fa' in w:
+            _, verdicts, _ = run_frame_pairs(ctx, [w], 'finding-' + f['id'], [1])
+        elif 'a' in w:
             seeds = [1]
             items = model_pair_items(ctx, [w], seeds) if 'base' in w['a'] else \
                 [(w, w['a']['kind'], gen.build_component(w['a']), gen.build_component(w['b']), None)]
@@ -878,12 +1154,14 @@ def run(ctx):
     reg_single, reg_pairs = [], []
     for p in sorted((VERIF / 'regress' / 'C12').glob('*.json')):
         w = json.loads(p.read_text())
+        if 'fa' in w or 'results' in w:
+            continue            # dataset pairs and results objects are taken up below
         (reg_pairs if 'a' in w else reg_single).append(w)
 
     # ---- single objects
     rng = ctx.rng
-    ncomp = 230 if quick else 3500
-    nmodels = 14 if quick else 120
+    ncomp = 200 if quick else 2500
+    nmodels = 10 if quick else 100
     specs = list(reg_single)
     specs += [gen_component(rng) for _ in range(ncomp)]
     specs += [gen_parameter(rng, nan_ok=True) for _ in range(3)]
@@ -897,7 +1175,7 @@ def run(ctx):
         m = gen.build_model(ms)
         sels = [s for s, _, _ in parts_of(m)]
         rng.shuffle(sels)
-        for s in sels[: (9 if quick else 20)]:
+        for s in sels[: (8 if quick else 20)]:
             specs.append({'model': ms, 'part': s})
             nparts += 1
     ctx.log(f'{len(specs)} single-object specs generated')
@@ -964,8 +1242,30 @@ def run(ctx):
     for (spec, kind, _, _, _), tags in zip(pair_items, pverdicts):
         pstats[classify(ctx, spec, tags, pair=True)] += 1
 
+    # ---- results objects through to_json / read_results
+    rspecs = [w for w in (json.loads(p.read_text()) for p in sorted((VERIF / 'regress' / 'C12').glob('*.json'))) if 'results' in w]
+    rspecs += [gen_results_spec(rng) for _ in range(50 if quick else 600)]
+    rkept, rverdicts, rinfos = run_results(ctx, rspecs, 'results')
+    ctx.log(f'{len(rverdicts)} results objects judged')
+    rstats = {'ok': 0, 'known': 0, 'violation': 0, 'broken': 0}
+    for spec, tags in zip(rkept, rverdicts):
+        rstats[classify(ctx, spec, tags)] += 1
+
+    # ---- pairs of datasets: what reaches DatasetHash
+    fpairs = [w for w in (json.loads(p.read_text()) for p in sorted((VERIF / 'regress' / 'C12').glob('*.json'))) if 'fa' in w]
+    nfp = 50 if quick else 600
+    while len(fpairs) < nfp:
+        fp = gen_frame_pair(rng)
+        if fp is not None:
+            fpairs.append(fp)
+    fkept, fverdicts, finfos = run_frame_pairs(ctx, fpairs, 'frames', seeds[:2])
+    ctx.log(f'{len(fverdicts)} dataset pairs judged')
+    fstats = {'ok': 0, 'known': 0, 'violation': 0, 'broken': 0}
+    for spec, tags in zip(fkept, fverdicts):
+        fstats[classify(ctx, spec, tags, pair=True)] += 1
+
     # ---- evidence
-    ctx.coverage['evaluations'] = len(verdicts) + len(pverdicts) + len(mverdicts)
+    ctx.coverage['evaluations'] = len(verdicts) + len(pverdicts) + len(mverdicts) + len(fverdicts) + len(rverdicts)
     distinct = {json.dumps(s, sort_keys=True) for s, i in zip(kept, infos) if i['text_len'] > 60}
     distinct |= {json.dumps(s, sort_keys=True, default=str) for (s, _, _, _, _) in pair_items}
     ctx.coverage['distinct_nontrivial'] = len(distinct)
@@ -974,7 +1274,7 @@ def run(ctx):
                             'transformations from the example models and randomly chosen parts of them; pairs of systems / models '
                             'related by permutation, there-and-back transformations, renaming, content changes; non-trivial = '
                             'dictionary text longer than 60 characters; distinct by spec text')
-    ctx.coverage['case_status'] = {'single': stats, 'pairs': pstats, 'malformed': mstats}
+    ctx.coverage['case_status'] = {'single': stats, 'pairs': pstats, 'malformed': mstats, 'dataset_pairs': fstats, 'results': rstats}
     kinds = {}
     for i in infos:
         kinds[i['kind']] = kinds.get(i['kind'], 0) + 1
@@ -994,10 +1294,18 @@ def run(ctx):
         'pairs_eq_raises': sum(1 for i in pinfos if i['eq'] is None),
         'pairs_equal_but_text_differs': sum(1 for v in pverdicts if 13 in v),
         'pairs_eq_depends_on_dosing_order': sum(1 for v in pverdicts if 209 in v),
+        'pairs_tool_option_order_differs': sum(1 for v in pverdicts if 210 in v),
         'model_pair_relations': {w: sum(1 for p in mpairs if p.get('why') == w) for w in sorted({p.get('why', 'regress') for p in mpairs})},
         'malformed_dicts': len(mverdicts), 'malformed_impl_raised': sum(1 for i in minfos if i['error']),
         'malformed_impl_accepted': sum(1 for i in minfos if not i['error']),
         'malformed_error_kinds': {k: sum(1 for i in minfos if i['error'] == k) for k in sorted({i['error'] for i in minfos if i['error']})},
+        'results_objects': len(rverdicts), 'results_supported': sum(1 for v in rverdicts if 220 not in v),
+        'results_read_back_equal': sum(1 for i in rinfos if i['equal']), 'results_to_json_raised': sum(1 for i in rinfos if not i['encoded']),
+        'results_read_raised': sum(1 for i in rinfos if i['encoded'] and not i['read']),
+        'dataset_pair_relations': {w: sum(1 for i in finfos if i['why'] == w) for w in sorted({str(i['why']) for i in finfos})},
+        'dataset_pairs_equal_frames': sum(1 for i in finfos if i['equals']),
+        'dataset_pairs_same_hash': sum(1 for i in finfos if i['hash_eq']),
+        'dataset_pairs_index_elided': sum(1 for v in fverdicts if 212 in v),
         'processes_per_model_key': 1 + len(seeds), 'hashseeds': ['0 (check process)'] + [str(s) for s in seeds],
     }
     ctx.coverage['samples'] = ([{'spec': s, 'tags': v} for s, v in list(zip(kept, verdicts))[:3]]
@@ -1006,6 +1314,20 @@ def run(ctx):
 
 def replay(ctx, rep):
     spec = rep['spec']
+    if 'results' in spec:
+        _, verdicts, infos = run_results(ctx, [spec], 'replay')
+        print('info', infos[0] if infos else None)
+        tags = verdicts[0] if verdicts else []
+        print('spec', json.dumps(spec)[:2000])
+        print('tags', tags, [TAGS.get(t, t) for t in tags])
+        return 1 if any(t in ORACLE or t in CORR for t in tags) else 0
+    if 'fa' in spec:
+        _, verdicts, infos = run_frame_pairs(ctx, [spec], 'replay', [1, 4242])
+        print('info', infos[0] if infos else None)
+        tags = verdicts[0] if verdicts else []
+        print('spec', json.dumps(spec)[:2000])
+        print('tags', tags, [TAGS.get(t, t) for t in tags])
+        return 1 if any(t in ORACLE or t in CORR for t in tags) else 0
     if spec.get('malformed'):
         _, verdicts, infos = run_malformed(ctx, [spec], 'replay')
         print('info', infos[0] if infos else None)
